@@ -804,6 +804,33 @@ func (g *gen) perturbState(tx *TxD) string {
 	return ""
 }
 
+// costs of tx for its signer: amount+tips+fee (in-block, non-contract), amount+tips+maxFee (mempool / contract),
+// amount+tips+fee+gas cost (what a contract transaction is charged when the VM uses its gas)
+func (g *gen) costs(tx *TxD) []*big.Int {
+	n := g.estN()
+	fpg := bz(g.cs.G.Fpg)
+	f := fee.CalculateFee(n, fpg, buildTx(tx))
+	base := new(big.Int).Add(bz(tx.Amount), bz(tx.Tips))
+	res := []*big.Int{new(big.Int).Add(base, f), new(big.Int).Add(base, bz(tx.MaxFee))}
+	if tx.VM != nil {
+		gas := new(big.Int).Mul(fpg, new(big.Int).SetUint64(tx.VM.GasUsed))
+		res = append(res, new(big.Int).Add(res[0], gas), new(big.Int).Add(f, gas), new(big.Int).Add(new(big.Int).Add(f, gas), bz(tx.Tips)))
+	}
+	return res
+}
+
+// boundaryFunds puts the signer's balance at cost−1 / cost / cost+1 for one of the cost notions
+func (g *gen) boundaryFunds(tx *TxD) string {
+	cs := g.costs(tx)
+	c := cs[g.pick(len(cs))]
+	b := new(big.Int).Add(c, bi(int64(g.pick(3)-1)))
+	if b.Sign() < 0 {
+		b = bi(0)
+	}
+	g.A(tx.Key).Bal = b
+	return "boundaryFunds"
+}
+
 // perturbTx: one adversarial change of the transaction itself
 func (g *gen) perturbTx(tx *TxD) string {
 	switch g.pick(12) {
@@ -979,6 +1006,9 @@ func GenCase(r *rand.Rand, t uint16) *Case {
 			}
 		}
 	}
+	if tx.Key >= 1 && g.chance(0.22) {
+		note += "+" + g.boundaryFunds(tx)
+	}
 	if g.chance(0.04) {
 		g.cs.HeadDummies = []int{0, 1, 3}[g.pick(3)] // F9: the head's network size differs from the checked state's
 		note += "+head"
@@ -1010,6 +1040,31 @@ func GenCase(r *rand.Rand, t uint16) *Case {
 		tx2 = g.mkTx([]uint16{types.SendTx, types.KillTx, types.InviteTx, types.DelegateTx}[g.pick(4)], k2, ip(g.anyID()), nil, nil)
 		if tx2.Type == types.KillTx {
 			tx2.To = nil
+		}
+	case 4:
+		if tx.Key >= 1 && tx.Type == types.SendTx && tx.Amount != nil && tx.Amount.Sign() >= 0 {
+			// the first transfer drains the signer into the gap between "plain fee" and "fee + gas", then he calls /
+			// terminates a contract whose VM run uses gas
+			t2 := []uint16{types.TerminateContractTx, types.CallContractTx}[g.pick(2)]
+			var payload []byte
+			if t2 == types.CallContractTx {
+				payload, _ = attachments.CreateCallContractAttachment("transfer", []byte{1}).ToBytes()
+			} else {
+				payload, _ = attachments.CreateTerminateContractAttachment([]byte{1}).ToBytes()
+			}
+			tx2 = g.mkTx(t2, tx.Key, ip(NKeys+1), nil, payload)
+			tx2.Nonce = tx.Nonce + 1
+			tx2.Tips = nil
+			tx2.VM = &VMRes{CAddr: NKeys + 1, Success: g.chance(0.8), GasUsed: uint64(500 + g.pick(3000))}
+			c1 := g.costs(tx)[0]
+			c2 := g.costs(tx2)
+			left := c2[g.pick(len(c2))]
+			left = new(big.Int).Add(left, bi(int64(g.pick(3)-1)))
+			if left.Sign() < 0 {
+				left = bi(0)
+			}
+			g.A(tx.Key).Bal = new(big.Int).Add(c1, left)
+			note += "+drainThenContract"
 		}
 	case 3:
 		if tx.Key >= 1 { // the same sender continues with the next nonce
